@@ -650,7 +650,28 @@ pub fn dump(path: &str) {
     match run_sim(&case) {
         Err(p) => println!("panic: {p}"),
         Ok(out) => {
+            let show_fire = |f: &Fire| {
+                println!(
+                    "     t={:>14} {} expiry: {}",
+                    f.t,
+                    if f.client { "C" } else { "S" },
+                    match &f.action {
+                        Some(a) => format!(
+                            "action timer of m{} -> {}(b{} r{} dur{}) executed",
+                            f.machine,
+                            ["Cancel", "Pad", "Block", "Timer"][a.kind as usize],
+                            a.bypass as u8,
+                            a.replace as u8,
+                            a.duration_ns
+                        ),
+                        None => format!("internal timer of m{}", f.machine),
+                    }
+                );
+            };
             for (i, s) in out.steps.iter().enumerate() {
+                for f in &s.pre {
+                    show_fire(f);
+                }
                 let tr = out.trace.get(i);
                 println!(
                     "{i:4} t={:>14} {} {}{} {} -> {:?}",
@@ -681,6 +702,9 @@ pub fn dump(path: &str) {
                         ))
                         .collect::<Vec<_>>()
                 );
+            }
+            for f in &out.tail {
+                show_fire(f);
             }
         }
     }
